@@ -22,6 +22,7 @@ text that is really there.
   R6  attr alias     `t = self.a` whose every use is evaluated before any await, call (logging aside) or store to `.a`: `self.a` is written for `t`.
   R5  single use     `t = E` followed at once by a statement that evaluates `t` exactly once, first and unconditionally (and `t` is bound and
                      read nowhere else): E is written in its place.
+  R4' local defs     a helper defined inside a function (a closure) and bound once is inlined at its calls like any other helper.
   R4  inlining       a call of a helper that is not one of the functions the rules are anchored in (ANCHORS: the
                      functions of the pinned tree) is replaced by the helper's body: parameters bound to the
                      arguments, locals renamed apart, `return` turned into the use the caller makes of the value.
@@ -950,6 +951,8 @@ class Inliner:
         """-> (qualname, def, self_expr or None) for a callee expression, or None"""
         if isinstance(call_func, ast.Name):
             nm = call_func.id
+            if nm in getattr(self, 'local_funcs', {}):
+                return f"{self.cur_qual}.<locals>.{nm}", self.local_funcs[nm], None
             if nm in self.funcs and nm not in fn_ctx_bound:
                 return nm, self.funcs[nm], None
             return None
@@ -1170,7 +1173,26 @@ class Inliner:
         self.cur_cls = cls
         self.cur_fn = fn
         self.cur_qual = f"{cls}.{fn.name}" if cls else fn.name
+        # helper functions defined inside the function (closures over its locals), bound once: inlined at their calls like any other helper --
+        # free names keep referring to the enclosing scope, which is what a closure does at call time
+        self.local_funcs = {}
+        for st in fn.body:
+            if isinstance(st, ast.FunctionDef) and not st.decorator_list:
+                stores = sum(1 for n in ast.walk(fn) if (isinstance(n, ast.Name) and n.id == st.name and isinstance(n.ctx, ast.Store)) or
+                             (isinstance(n, (ast.FunctionDef, ast.AsyncFunctionDef)) and n is not fn and n.name == st.name))
+                if stores == 1 and not _contains(st.body, (ast.Nonlocal, ast.Global, ast.Yield, ast.YieldFrom)):
+                    self.local_funcs[st.name] = st
         fn.body = self.block(fn.body, 0)
+        if self.local_funcs:
+            keep = []
+            for st in fn.body:
+                if isinstance(st, ast.FunctionDef) and st.name in self.local_funcs:
+                    used = any(isinstance(n, ast.Name) and n.id == st.name and isinstance(n.ctx, ast.Load) for other in fn.body if other is not st for n in ast.walk(other))
+                    if not used:
+                        continue
+                keep.append(st)
+            fn.body = keep or [ast.Pass()]
+        self.local_funcs = {}
 
     def block(self, stmts, depth):
         out = []
